@@ -89,3 +89,21 @@ func IsPrefix(got, want []smfref.NEvent) string {
 	}
 	return ""
 }
+
+// NopLogger is a logger that discards everything: attaching it must not change any result.
+type NopLogger struct{}
+
+func (NopLogger) Printf(format string, vals ...interface{}) {}
+
+// ReadOpts returns the read options for an input: for every second input (by content) the
+// behaviour-neutral smf.Log option with a discarding logger.
+func ReadOpts(input []byte) []smf.ReadOption {
+	var h uint32 = 2166136261
+	for _, b := range input {
+		h = (h ^ uint32(b)) * 16777619
+	}
+	if len(input) > 0 && h&1 == 1 {
+		return []smf.ReadOption{smf.Log(NopLogger{})}
+	}
+	return nil
+}
